@@ -255,18 +255,11 @@ def s5(ck, an):
         ck.check(c1[0] == "rel" and c1[1] == "==" and c1[4].atoms() == {"hash(self.symbol)", f"hash({fe.f.params[1]})"} and len(c1[4].t) == 2, "IDIOM", "S5.eq-with-plain-keys", fe.f.short, fe.f.loc, "a contract equals a plain key (e.g. its symbol string) iff the hashes agree", f"fallback comparison is {v1}",
                  construct="return hash(self.symbol) == hash(other)")
     fg = an.fa("Exchange.__getitem__")
-    calls = fg.calls_named("static_hashing")
     keyp = fg.f.params[1]
-    good = False
-    for c in calls:
-        st = enclosing_stmt(c)
-        preds = fg.guard_predicates(c)
-        if isinstance(st, ast.Assign) and isinstance(st.targets[0], ast.Name) and st.targets[0].id == keyp and isinstance(c.func, ast.Attribute) and isinstance(c.func.value, ast.Name) and c.func.value.id == keyp:
-            if all(p[0] == "truthy" and "isinstance" in p[1] and "AbstractContract" in p[1] and p[2] for p in preds):
-                good = True
-    ck.check(good, "IDIOM", "S5.getitem-normalises-key", fg.f.short, fg.f.loc, "__getitem__ replaces a contract key by key.static_hashing()",
-             "__getitem__ does not normalise contract keys with static_hashing()", construct="key = key.static_hashing()")
-    rets = returns_in(fg)
-    rv = [ast.unparse(r.value) for r in rets]
-    ck.check(len(rets) == 1 and rv[0] == f"self._books[{keyp}]", "IDIOM", "S5.getitem-returns-book", fg.f.short, fg.f.loc, "__getitem__ returns self._books[key]",
+    # the value returned, as a value id over the parameter: the book filed under the key, a contract key being replaced by its static hash first
+    rv = ret_canons(fg)
+    want = specv(fg, f"self._books[{keyp}.static_hashing() if isinstance({keyp}, AbstractContract) else {keyp}]").key()
+    ck.check(len(rv) == 1 and rv[0] == want, "IDIOM", "S5.getitem-normalises-key", fg.f.short, fg.f.loc, "__getitem__ replaces a contract key by key.static_hashing() and returns self._books[key]",
+             f"__getitem__ returns {rv}; expected {want}", construct="key = key.static_hashing()")
+    ck.check(len(rv) == 1 and rv[0].startswith("self._books["), "IDIOM", "S5.getitem-returns-book", fg.f.short, fg.f.loc, "__getitem__ returns self._books[key]",
              f"__getitem__ returns {rv}", construct="return self._books[key]")
